@@ -184,7 +184,7 @@ def time_roundtrip(hour=0):
     """HOUR/MINUTE/SECOND invert TIME for every second of hour `hour` (IEEE doubles)"""
     st.MODE = 'bv'
     m, s = z3.BitVec('m', 64), z3.BitVec('s', 64)
-    D.float, D.int = st.sym_float, st.sym_int
+    D.float, D.int, D.math = st.sym_float, st.sym_int, st.SMath()
 
     def fn():
         v = D.xtime(hour, st.SInt(m), st.SInt(s))
